@@ -111,7 +111,7 @@ func (n *nemesis) install() func() {
 		return func(q *big.Int, in, out []*big.Int) error {
 			idx := n.serial
 			n.serial++
-			rec := hintCall{ID: id, In: copyInts(in)}
+			rec := hintCall{ID: id, In: copyInts(in), Name: solver.GetHintName(f)}
 			var err error
 			if s, ok := n.plan[idx]; ok && id != bsb {
 				err = s(n, idx, f, q, in, out)
@@ -388,6 +388,9 @@ type gcase struct {
 	NeedsCommit bool
 	SmallOK     bool // compiles over the 47-element field
 	EngineOnly  bool // too large to compile in the quick tier: evaluated on the test engine
+	// Classify refines the key of a wrong-output-accepted violation from the faulted calls
+	// (so that a recorded known finding stays specific)
+	Classify func(honest, faulted []hintCall, planned map[int]bool, q *big.Int) string
 }
 
 type compiled struct {
@@ -562,7 +565,21 @@ func nemesisRun(w *Worker, tape *simrt.Tape, prop string, cases []*gcase, fields
 			msg = check(n.probes)
 		}
 		if msg != "" {
-			if o.violateOrKnown(w, "wrong-output-accepted", "wrong-output-accepted:"+where+":"+strings.Split(fd, "@")[0], msg+"\nfault: "+fd+"\ncase: "+o.Desc) {
+			// describe the altered answers
+			for idx := range n.plan {
+				if idx < len(n.calls) && idx < len(base.calls) {
+					msg += fmt.Sprintf("\ncall %d = %s: honest answer %s, faulted answer %s", idx, n.calls[idx].Name, shortInts(base.calls[idx].Out), shortInts(n.calls[idx].Out))
+				}
+			}
+			key := "wrong-output-accepted:" + where + ":" + strings.Split(fd, "@")[0]
+			if gc.Classify != nil {
+				planned := map[int]bool{}
+				for idx := range n.plan {
+					planned[idx] = true
+				}
+				key += ":" + gc.Classify(base.calls, n.calls, planned, f.Q)
+			}
+			if o.violateOrKnown(w, "wrong-output-accepted", key, msg+"\nfault: "+fd+"\ncase: "+o.Desc) {
 				o.Viol.Faults = fdesc
 				return o
 			}
@@ -573,6 +590,29 @@ func nemesisRun(w *Worker, tape *simrt.Tape, prop string, cases []*gcase, fields
 		o.Sample = map[string]any{"case": o.Desc, "hint_calls": ncalls, "faulty_plans": nfaults}
 	}
 	return o
+}
+
+func shortInts(v []*big.Int) string {
+	var sb strings.Builder
+	sb.WriteString("[")
+	for i, x := range v {
+		if i >= 12 {
+			fmt.Fprintf(&sb, " ... (%d values)", len(v))
+			break
+		}
+		if i > 0 {
+			sb.WriteString(" ")
+		}
+		if x == nil {
+			sb.WriteString("nil")
+		} else if x.BitLen() > 80 {
+			fmt.Fprintf(&sb, "0x%s..(%d bits)", x.Text(16)[:12], x.BitLen())
+		} else {
+			sb.WriteString(x.String())
+		}
+	}
+	sb.WriteString("]")
+	return sb.String()
 }
 
 // helpers for specs ----------------------------------------------------------------------
